@@ -72,6 +72,25 @@ class number(metaclass=_Meta):
         return t in (number, integer, floating)
 
 
+class generic(metaclass=_Meta):
+    """base class of NumPy scalars: the model has none (reductions and indexing return plain Python numbers)"""
+    @staticmethod
+    def _check(x):
+        return False
+
+    @staticmethod
+    def _sub(t):
+        return t in (generic, number, integer, floating)
+
+
+def ndim(x):
+    if isinstance(x, ndarray):
+        return x.ndim
+    if isinstance(x, (list, tuple)):
+        return asarray(x).ndim
+    return 0
+
+
 class dtype:
     def __init__(self, kind, ulen=None):
         self.kind = kind
